@@ -113,7 +113,7 @@ def nameserver_jobs(tier):
         if nm.startswith("stubpton"):
             real = [r for r in NS_LIB if "inet_net_pton" not in r]
             sup = SUP + ["pton_stub.c"]
-            u.update({"pton_common.0": 18, "pton_common.1": 17})
+            u.update({"pton_common.0": 18, "pton_common.1": 17, "pton_common.2": 17})
         u["ares_dns_pton.0"] = 48
         extra = {}
         if mode >= 1:
@@ -152,7 +152,7 @@ def sortlist_jobs(tier):
                   "ares_buf_split.2": tok + 1, "ares_buf_split.0": 2, "ares_buf_split.1": 2, "ares_parse_sortlist.0": tok + 1,
                   "ares_array_destroy.0": tok + 1, "ares_array_insertdata_last.0": 9, "ares_array_insert_last.1": 9,
                   "vp_realloc.0": 26, "memcpy.0": max(n + 2, 26), "ares_str_isnum.0": n + 2, "strtol.0": n + 2,
-                  "raw_alloc.0": 6, "pton_common.0": 18, "pton_common.1": 17})
+                  "raw_alloc.0": 6, "pton_common.0": 18, "pton_common.1": 17, "pton_common.2": 17})
         sizes = "-DVP_SIZES=24,48,%d,32,64" % (n + 1)   # apattern x1/x2, text, array_ref struct/ares_buf, array storage
         d = ["-DL=%d" % l, "-DPREFIX=" + q(prefix), sizes] + (["-DCHARSET=" + q(cs)] if cs else [])
         if split is not None:
@@ -202,9 +202,12 @@ def resolvline_jobs(tier):
         v = v0
         if key == "options":
             kd.append("-DNOBLANK")
-            v = 3 if tier == "quick" else 4   # measured: 4 value bytes 150 s
+            v = 2 if tier == "quick" else 4   # measured: 3 value bytes 130 s, 4 bytes 150-200 s
         if key == "nameserver":
             kd.append("-DNOSEP")
+            v = 3 if tier == "quick" else 5   # measured: 4 value bytes 105 s
+        if key == "sortlist":
+            v = 2 if tier == "quick" else 4   # measured: 4 value bytes out of memory at 8 GB
         for pre in (0, 1):
             if own == 0 and pre == 0:
                 continue
@@ -221,7 +224,7 @@ def resolvline_jobs(tier):
                       "ares_free_array.1": max(tok, 2) + 1, "ares_array_destroy.0": max(tok, 2) + 1, "config_lookup.0": tok + 1,
                       "config_search.0": tok + 1, "ares_sysconfig_set_options.0": tok + 1, "ares_parse_sortlist.0": tok + 1,
                       "ares_sconfig_append_fromstr.0": tok + 1, "ares_array_insertdata_last.0": 9, "ares_array_insert_last.1": 9,
-                      "pton_common.0": 18, "pton_common.1": 17, "strtoul.0": v + 2, "strtoul.1": v + 2,
+                      "pton_common.0": 18, "pton_common.1": 17, "pton_common.2": 17, "strtoul.0": v + 2, "strtoul.1": v + 2,
                       "ares_llist_clear.0": tok + 2, "harness.0": 13, "harness.1": v + 1, "harness.2": 3,
                       "memcpy.0": max(n + 1, {"sortlist": 25, "nameserver": 21}.get(key, 0), 21 if pre else 0), "vp_realloc.0": 50, "ares_memeq_ci.0": v + 1, "strcasecmp.0": 9,
                       "ares_buf_fetch_str_dup.0": v + 1, "str_eq.0": 5, "domains_eq.0": 3, "sortlist_eq.0": 3, "servers_eq.0": 4,
